@@ -39,11 +39,11 @@ type Job struct {
 }
 
 type Property struct {
-	ID       string
-	Level    string
-	Jobs     []Job
-	Assumes  []string
-	Explain  string
+	ID      string
+	Level   string
+	Jobs    []Job
+	Assumes []string
+	Explain string
 	// Monitors: executor monitor kinds that count as violations of this property.
 	Monitors []string
 }
